@@ -189,7 +189,7 @@ func (h *serialHarness) Gen(r *Rand, tier string, clean bool) any {
 	} else {
 		c.Damage = "enumerate"
 		c.Deep = tier == "thorough"
-		c.Conc = r.Chance(0.1)
+		c.Conc = r.Chance(0.3)
 	}
 	return c
 }
@@ -776,11 +776,27 @@ func (h *serialHarness) runConcurrentParse(t *testing.T, c *SerialCase, img []by
 		alone[i] = parseOutcome(it.kind, it.text)
 	}
 	r := NewRand(c.Seed, 151)
-	ntasks := r.Range(2, 3)
+	ntasks := r.Range(2, 4)
 	calls := make([][]int, ntasks)
+	// half of the runs concentrate on one kind of text (all tasks in the same parser at the same time)
+	focus := ""
+	if r.Bool() {
+		focus = []string{"predicate", "triple", "literal", "node"}[r.Intn(4)]
+	}
+	var pool []int
+	for i, it := range items {
+		if focus == "" || it.kind == focus {
+			pool = append(pool, i)
+		}
+	}
+	if len(pool) == 0 {
+		for i := range items {
+			pool = append(pool, i)
+		}
+	}
 	for ti := range calls {
-		for k, m := 0, r.Range(3, 8); k < m; k++ {
-			calls[ti] = append(calls[ti], r.Intn(len(items)))
+		for k, m := 0, r.Range(4, 12); k < m; k++ {
+			calls[ti] = append(calls[ti], pool[r.Intn(len(pool))])
 		}
 	}
 	type obs struct {
@@ -789,7 +805,7 @@ func (h *serialHarness) runConcurrentParse(t *testing.T, c *SerialCase, img []by
 	}
 	var seen []obs
 	tape := sim.NewTape(c.Seed)
-	res, bmsg := simRun(t, tape, sim.Config{Preempt: int(c.Seed % 6), PreemptMean: 8, MaxSteps: 400000, Trace: traceOn}, func(rt *sim.Runtime) {
+	res, bmsg := simRun(t, tape, sim.Config{Preempt: 1 + int(c.Seed%8), PreemptMean: []int{2, 5, 15}[int(c.Seed>>8)%3], MaxSteps: 400000, Trace: traceOn}, func(rt *sim.Runtime) {
 		for ti := range calls {
 			ti := ti
 			rt.Client(fmt.Sprintf("p%d", ti), func() {
